@@ -1,0 +1,40 @@
+//go:build verif
+
+package req
+
+// Read-only accessors for the C19 verification harness under /verif (setting scope and clone
+// independence). Compiled only with -tags verif; no existing line is changed.
+
+// VerifC19Retry returns the retry option a request carries (copied from its client at R()).
+func VerifC19Retry(r *Request) (max int, interval GetRetryIntervalFunc, conds []RetryConditionFunc, hooks []RetryHookFunc, isNil bool) {
+	if r.retryOption == nil {
+		return 0, nil, nil, nil, true
+	}
+	o := r.retryOption
+	return o.MaxRetries, o.GetRetryInterval, o.RetryConditions, o.RetryHooks, false
+}
+
+// VerifC19SliceShape returns len and cap of the append-able slices a client holds, in the order
+// Cookies, roundTripWrappers, httpRoundTripWrappers, udBeforeRequest, afterResponse.
+func VerifC19SliceShape(c *Client) [5][2]int {
+	return [5][2]int{
+		{len(c.Cookies), cap(c.Cookies)},
+		{len(c.roundTripWrappers), cap(c.roundTripWrappers)},
+		{len(c.Transport.httpRoundTripWrappers), cap(c.Transport.httpRoundTripWrappers)},
+		{len(c.udBeforeRequest), cap(c.udBeforeRequest)},
+		{len(c.afterResponse), cap(c.afterResponse)},
+	}
+}
+
+// VerifC19DumpState reports whether the client-level dump is running and whether the options the
+// client's dump setters write (Client.dumpOptions) are the ones its running Dumper reads.
+func VerifC19DumpState(c *Client) (running bool, linked bool, setterOpts *DumpOptions, dumperOpts *DumpOptions) {
+	setterOpts = c.dumpOptions
+	if c.Dump == nil {
+		return false, false, setterOpts, nil
+	}
+	if o, ok := c.Dump.Options.(dumpOptions); ok {
+		dumperOpts = o.DumpOptions
+	}
+	return true, dumperOpts != nil && dumperOpts == setterOpts, setterOpts, dumperOpts
+}
